@@ -141,7 +141,7 @@ CLAIMS["C12"] = {
 
 CLAIMS["C14"] = {
     "technique": "bounded Kani harnesses on get_locale_from_path extracted verbatim (trait Locale reduced to get_all / as_str)",
-    "text": "Bounded, first sentence of the property only: for every path of up to 5 (quick) / 7 (thorough) characters "
+    "text": "Bounded, first sentence of the property only: for every path of up to 4 (quick) / 7 (thorough) characters "
             "after the base path, over the characters of the locale names, `/` and one other letter, with locales en, "
             "en-US, fr listed in either order and base path \"\" or /a, get_locale_from_path returns the locale whose "
             "name is the whole first path segment after the base path, and none when that segment is not a locale name "
